@@ -251,3 +251,17 @@ func Sgn(x int) int {
 
 // Yield is a scheduling point for the engine's exploring scheduler.
 func Yield() {}
+
+// ExploreOn/ExploreOff delimit the region in which the engine explores all goroutine interleavings;
+// outside it the engine schedules deterministically. Natively they do nothing.
+func ExploreOn()  {}
+func ExploreOff() {}
+
+var atomicMu sync.Mutex
+
+// Atomic runs f as one indivisible step (engine: no scheduling point inside; natively: a global mutex).
+func Atomic(f func()) {
+	atomicMu.Lock()
+	defer atomicMu.Unlock()
+	f()
+}
